@@ -19,6 +19,7 @@ func init() {
 	rt.Register("C08_Duration", C08_Duration)
 	rt.Register("C08_String", C08_String)
 	rt.Register("C08_Char", C08_Char)
+	rt.Register("C08_QuotedSkeleton", C08_QuotedSkeleton)
 	rt.Register("C08_Words", C08_Words)
 	rt.Register("C08_Regexp", C08_Regexp)
 }
@@ -277,7 +278,10 @@ func sameBytes(a string, b []byte) bool {
 // C08_String: double-quoted (and optionally back-quoted) string literals.
 func C08_String() {
 	e := setup(rt.Param("N", 4))
-	bq := rt.Choose("backquote", 2) == 1
+	checkString(e, rt.Choose("backquote", 2) == 1)
+}
+
+func checkString(e *env, bq bool) {
 	node, err := e.parse(terminal.String("string", bq))
 	if !e.common("str", node, err) {
 		return
@@ -332,7 +336,10 @@ func C08_String() {
 
 // C08_Char
 func C08_Char() {
-	e := setup(rt.Param("N", 4))
+	checkChar(setup(rt.Param("N", 4)))
+}
+
+func checkChar(e *env) {
 	node, err := e.parse(terminal.Char("char"))
 	if !e.common("char", node, err) {
 		return
@@ -505,5 +512,71 @@ func C08_Regexp() {
 		rt.ExpectPanic()
 		e.parse(terminal.Regexp("s", "X", "a", `(a)`, 2))
 		rt.Fail("re4/invalid-group-accepted", "")
+	}
+}
+
+// C08_QuotedSkeleton: string and char literals with fixed quotes and symbolic
+// content: q + 1..S free bytes + q, and every escape family with symbolic
+// digits (\xHH, \uHHHH, \UHHHHHHHH, \ooo), optionally followed by one free byte.
+func C08_QuotedSkeleton() {
+	isStr := rt.Choose("literal", 2) == 0
+	q := byte('\'')
+	if isStr {
+		q = '"'
+	}
+	free := func() byte { return rt.Byte("in") }
+	hexish := func() byte {
+		// a decimal digit: one class for the lexers, still a symbolic value
+		b := rt.Byte("in")
+		rt.Assume(isDigit(b))
+		return b
+	}
+	d := []byte{q}
+	// in the escape families at most F of the digits are free bytes (so that
+	// invalid digits occur at every position over the runs), the rest are
+	// assumed to be decimal digits (symbolic values)
+	F := rt.Param("F", 1)
+	digits := func(n int) {
+		freeAt := rt.Choose("freeat", n)
+		for i := 0; i < n; i++ {
+			if i >= freeAt && i < freeAt+F {
+				d = append(d, free())
+			} else {
+				d = append(d, hexish())
+			}
+		}
+	}
+	fam := rt.Choose("family", 5)
+	switch fam {
+	case 0:
+		n := 1 + rt.Choose("len", rt.Param("S", 4))
+		for i := 0; i < n; i++ {
+			d = append(d, free())
+		}
+	case 1:
+		d = append(d, '\\', 'x')
+		digits(2)
+	case 2:
+		d = append(d, '\\', 'u')
+		digits(4)
+	case 3:
+		d = append(d, '\\', 'U')
+		digits(8)
+	case 4:
+		d = append(d, '\\')
+		digits(3)
+	}
+	d = append(d, q)
+	if fam == 0 && rt.Choose("tail", 2) == 1 {
+		d = append(d, free())
+	}
+	for i := 1; i < len(d); i++ {
+		rt.Assume(!(d[i-1] == '\r' && d[i] == '\n'))
+	}
+	e := mkEnv(d, 0)
+	if isStr {
+		checkString(e, false)
+	} else {
+		checkChar(e)
 	}
 }
